@@ -239,7 +239,7 @@ package geometry
 //@ spec func IndexInv(s *baseSeries) bool { s.index == nil || (isBytes(s.index) && indexBytesOK(s.points, s.closed, s.rect, unboxBytes(s.index))) }
 
 //@ func baseSeries.Search
-//@   props C04 C01
+//@   props C04 C01 C08
 //@   arith order
 //@   requires series != nil && IndexInv(series)
 //@   iter iter(idx) dom 0 <= idx && idx < bsNseg(series) ; match rectsMeet(segRect(bsSeg(series, idx)), rect) ; args bsSeg(series, idx), idx
@@ -652,7 +652,7 @@ package geometry
 //@ spec func bsEmpty(s *baseSeries) bool { (s.closed && len(s.points) < 3) || len(s.points) < 2 }
 
 //@ func Point.Valid
-//@   props C11
+//@   props C11 C08
 //@   arith order
 //@   ensures result == validPt(point)
 //@ func Point.Empty
@@ -664,7 +664,7 @@ package geometry
 //@   arith order
 //@   ensures result == mkRect(point, point)
 //@ func Rect.Valid
-//@   props C11
+//@   props C11 C08
 //@   arith order
 //@   ensures result == (validPt(rectPt(rect,0)) && validPt(rectPt(rect,1)) && validPt(rectPt(rect,2)) && validPt(rectPt(rect,3)))
 //@ func Rect.Empty
@@ -691,7 +691,7 @@ package geometry
 //@   induction k
 
 //@ func baseSeries.Valid
-//@   props C11
+//@   props C11 C08
 //@   arith order
 //@   requires series != nil
 //@   ret use allValidWitness(series, $i, len(series.points))
@@ -737,7 +737,7 @@ package geometry
 //@   ensures result == sClockwise(self)
 
 //@ func Line.Valid
-//@   props C11
+//@   props C11 C08
 //@   arith order
 //@   requires line != nil
 //@   ensures result == bsAllValid(line.baseSeries, len(line.baseSeries.points))
@@ -754,7 +754,7 @@ package geometry
 //@     P != nil && (polyExt(P) != nil ==> SeriesInv(polyExt(P))) &&
 //@     (forall h int :: 0 <= h && h < polyNHoles(P) ==> polyHole(P,h) != nil && SeriesInv(polyHole(P,h))) }
 //@ func Poly.Valid
-//@   props C11
+//@   props C11 C08
 //@   ret use holesValidWitness(poly, $i, polyNHoles(poly))
 //@   requires poly != nil ==> (PolyInv(poly) || PolyShape(poly) || PolyShapeW(poly))
 //@   ensures result == (poly == nil || polyExt(poly) == nil || (sValid(polyExt(poly)) && polyHolesValid(poly, polyNHoles(poly))))
@@ -780,12 +780,12 @@ package geometry
 //@ spec func numBytesOf(n int) int { ite(n <= 255, 1, ite(n <= 65535, 2, 4)) }
 
 //@ func numBytes
-//@   props C04
+//@   props C04 C08
 //@   arith order
 //@   ensures result == numBytesOf(n)
 
 //@ func appendNum
-//@   props C04
+//@   props C04 C08
 //@   arith order
 //@   requires Fits: (ibytes == 1 ==> num <= 255) && (ibytes == 2 ==> num <= 65535)
 //@   ensures Len: len(result) == len(dst) + widthOf(ibytes)
@@ -794,7 +794,7 @@ package geometry
 //@   ensures Bytes: forall k int :: len(dst) <= k && k < len(result) ==> 0 <= result[k] && result[k] <= 255
 
 //@ func readNum
-//@   props C04
+//@   props C04 C08
 //@   arith order
 //@   requires len(data) >= widthOf(ibytes)
 //@   ensures result == numAt(data, 0, ibytes)
@@ -929,7 +929,7 @@ package geometry
 //@   ensures !inList(d,a,qN(d,a),j)
 
 //@ func qCompressSearch
-//@   props C04
+//@   props C04 C08
 //@   arith order
 //@   requires series != nil && QWF(data, addr, bounds, series.points, series.closed)
 //@   iter iter(item) dom qIn(data, addr, item) ; match rectsMeet(segRectOf(series.points, item), rect) ; args bsSeg(series, item), item
@@ -1035,7 +1035,7 @@ package geometry
 //@   induction k
 
 //@ func rnCompressSearch
-//@   props C04
+//@   props C04 C08
 //@   arith order
 //@   requires series != nil && RWF(data, addr, height, series.points, series.closed)
 //@   iter iter(item) dom rIn(data, addr, height, item) ; match rectsMeet(segRectOf(series.points, item), rect) ; args bsSeg(series, item), item
@@ -1058,7 +1058,7 @@ package geometry
 //@   proto call6 use rKidIn(data, addr, height, rCount(data, addr), i, $j)
 
 //@ func rCompressSearch
-//@   props C04
+//@   props C04 C08
 //@   arith order
 //@   requires series != nil && addr == 5 && RWFtop(data, series.points, series.closed)
 //@   iter iter(item) dom 0 <= item && item < bsNseg(series) ; match rectsMeet(segRectOf(series.points, item), rect) ; args bsSeg(series, item), item
